@@ -346,10 +346,13 @@ FRAMES = [
 SELF_FNS = {"is_last_allocation"}
 # zero-argument methods that are functions of the table (called with the receiver as `self`)
 RECV_FNS0 = {"is_empty"}
+# calls that run caller-supplied code (destructors): they may panic
+MAY_PANIC = {"drop_in_place"}
 # procedures: functions made of statements (let / assignment / while / calls made for their effect)
 #   (file, function, new name[, ("while", k)])  — with a locator only the k-th `while` statement is taken
 PROCS = [("src/lib.rs", "dealloc_chunk_list", "dealloc_chunk_list"),
-         ("src/collections/vec.rs", "partition_dedup_by", "dedup_partition_loop", ("while", 1))]
+         ("src/collections/vec.rs", "partition_dedup_by", "dedup_partition_loop", ("while", 1)),
+         ("src/collections/vec.rs", "truncate", "vec_truncate_loop", ("for", 1))]
 CONST_FILE = "src/lib.rs"
 
 
@@ -626,6 +629,15 @@ class Parser:
                 self.eat("{")
                 out += self.proc_stmts()
                 self.eat("}")
+            elif tok == "for" and self.peek(1) == "_" and self.peek(2) == "in":
+                self.eat(); self.eat(); self.eat()
+                lo = self.expr(no_struct=True, level=len(BINOPS) - 2)
+                self.eat("..")
+                hi = self.expr(no_struct=True, level=len(BINOPS) - 2)
+                self.eat("{")
+                body = self.proc_stmts()
+                self.eat("}")
+                out.append("SRepeat (EBin BSub %s %s) [%s]" % (hi, lo, "; ".join(body)))
             elif tok == "while":
                 self.eat()
                 c = self.expr(no_struct=True)
@@ -690,6 +702,14 @@ class Parser:
                 f = self.eat()
                 a = self.args()
                 self.eat(";")
+                out.append("%s %s [%s]" % ("SDoMay" if f in MAY_PANIC else "SDo", q(f), "; ".join(a)))
+            elif self.kind() == "id" and self.peek(1) == "." and self.kind(2) == "id" and self.peek(3) == "(" and self.peek() != "self":
+                # a method called for its effect on a local guard object: recorded under the method's name
+                self.eat()
+                self.eat()
+                f = self.eat()
+                a = self.args()
+                self.eat(";")
                 out.append("SDo %s [%s]" % (q(f), "; ".join(a)))
             elif self.kind() == "id" and self.peek(1) == "(":
                 f = self.eat()
@@ -725,6 +745,9 @@ class Parser:
                 self.eat()
             return self.unary(no_struct)
         if tok == "-":
+            if self.kind(1) == "num":
+                self.eat()
+                return "(ENEG %s)" % self.primary(no_struct)      # only as the argument of offset(): see postfix
             raise Unsupported("negation")
         e = self.postfix(no_struct)
         while self.peek() == "as":
@@ -769,6 +792,8 @@ class Parser:
                         e = "(EMeth0 %s %s)" % (e, q(m))
                     elif len(a) == 1 and e == '(EVar "self")' and m in SELF_FNS:
                         e = "(ECall1 %s %s)" % (q(m), a[0])
+                    elif len(a) == 1 and m == "offset" and a[0].startswith("(ENEG "):
+                        e = "(EMeth1 %s %s %s)" % (e, q("offset_back"), a[0][6:-1])
                     elif len(a) == 1:
                         e = "(EMeth1 %s %s %s)" % (e, q(m), a[0])
                     elif len(a) == 2 and e == '(EVar "self")':
@@ -1062,6 +1087,19 @@ def param_names(params):
             raise Unsupported("parameter %r" % p)
         out.append(m.group(2))
     return out
+
+
+def matching_tok(toks, i):
+    """index just after the `}` matching the `{` at token index i"""
+    depth = 0
+    for j in range(i, len(toks)):
+        if toks[j][1] == "{":
+            depth += 1
+        elif toks[j][1] == "}":
+            depth -= 1
+            if depth == 0:
+                return j + 1
+    raise Unsupported("unbalanced braces")
 
 
 def fix_path_vars(term):
@@ -1453,12 +1491,19 @@ def emit(repo):
                     raise Unsupported("%s #%d not found" % (kind, kth))
                 # parse exactly one statement starting there: wrap by stopping at the matching brace
                 p.i = hits[kth - 1]
-                p.eat("while")
-                c = p.expr(no_struct=True)
-                p.eat("{")
-                bodyss = p.proc_stmts()
-                p.eat("}")
-                ss = ["SWhile %s [%s]" % (c, "; ".join(bodyss))]
+                if kind == "while":
+                    p.eat("while")
+                    c = p.expr(no_struct=True)
+                    p.eat("{")
+                    bodyss = p.proc_stmts()
+                    p.eat("}")
+                    ss = ["SWhile %s [%s]" % (c, "; ".join(bodyss))]
+                else:
+                    # one `for` statement: parse it with the statement parser, stopping after it
+                    end = matching_tok(toks, next(j for j in range(p.i, len(toks)) if toks[j][1] == "{"))
+                    sub = Parser(toks[p.i:end] + [("op", "}")])
+                    sub.closures = p.closures
+                    ss = sub.proc_stmts()
             else:
                 p.eat("{")
                 ss = p.proc_stmts()
